@@ -495,6 +495,9 @@ func (ex *Exec) wfVal(c *Term, t types.Type) {
 // allocated: refs obtained from the pre-existing world are below the
 // allocation counter of that moment.
 func (ex *Exec) assumeAllocated(c *Term, t types.Type, st *State) {
+	if c.S == SInt {
+		ex.typedRef(c, t, st)
+	}
 	switch c.S {
 	case SInt:
 		switch t.Underlying().(type) {
@@ -591,6 +594,35 @@ func (ex *Exec) storeStruct(st *State, ref *Term, t types.Type, v Val) {
 
 func (ex *Exec) subobj(ref *Term, t types.Type, field int) *Term {
 	return ex.D.Fn("subobj", SInt, ref, IntLit(int64(ex.V.fieldID(structName(t), field))))
+}
+
+// tagType records the dynamic (struct) type of a freshly allocated object in
+// the ghost map $typeof, so that contracts can state heap-wide type invariants
+// ("every nick object has non-nil maps") with isa(x, "T").
+func (ex *Exec) tagType(st *State, ref *Term, t types.Type) {
+	if _, ok := t.Underlying().(*types.Struct); !ok {
+		return
+	}
+	h := ex.getHeap(st, "$typeof", ArrS(SInt, SInt))
+	ex.setHeap(st, "$typeof", Store(h, ref, IntLit(int64(ex.V.nameID("type:"+structName(t))))))
+}
+
+// typedRef: a non-nil pointer to one of goirc's struct types points to an
+// object of that type.
+func (ex *Exec) typedRef(c *Term, t types.Type, st *State) {
+	p, ok := t.Underlying().(*types.Pointer)
+	if !ok {
+		return
+	}
+	n, ok := p.Elem().(*types.Named)
+	if !ok || n.Obj().Pkg() == nil || !ex.V.isOurPkg(n.Obj().Pkg()) {
+		return
+	}
+	if _, isStruct := n.Underlying().(*types.Struct); !isStruct {
+		return
+	}
+	h := ex.getHeap(st, "$typeof", ArrS(SInt, SInt))
+	ex.assume(Or(Eq(c, IntLit(0)), Eq(Select(h, c), IntLit(int64(ex.V.nameID("type:"+structName(p.Elem())))))))
 }
 
 // newRef allocates a fresh reference.
@@ -878,6 +910,12 @@ func (ex *Exec) setupEntry() {
 	ex.cur = ex.init.clone()
 	ex.pc = True
 	ex.assume(Gt(ex.getHeap(ex.init, "$nextref", SInt), IntLit(0)))
+	// references that are not allocated yet carry no type tag
+	{
+		r := BV("r!ty", SInt)
+		ex.assume(Forall([]BVar{{"r!ty", SInt}}, Imp(Ge(r, ex.getHeap(ex.init, "$nextref", SInt)),
+			Eq(Select(ex.getHeap(ex.init, "$typeof", ArrS(SInt, SInt)), r), IntLit(0)))))
+	}
 	for tr := range ex.V.db.Traces {
 		ex.noteHeap(tr, ArrS(SInt, SEvent))
 		ex.assume(Ge(ex.getHeap(ex.init, tr+"len", SInt), IntLit(0)))
